@@ -263,24 +263,43 @@ func (r *LogValueRef) getOffsetDataValue(log *types.Log) []byte {
 	dataOffset := r.Offset - 4
 
 	offsetStartByte := dataOffset * Word
+	dataLength := uint64(len(log.Data))
 
-	x := log.Data[offsetStartByte : offsetStartByte+Word]
-
-	lengthByteOffset := new(big.Int).SetBytes(x).Uint64()
-	y := log.Data[lengthByteOffset : lengthByteOffset+Word]
-	length := new(big.Int).SetBytes(y).Uint64()
+	// The offset and length words come from the log and may point anywhere. Read them with bounds
+	// checks and treat a slice that cannot lie inside the log data as missing, so that neither an
+	// out of range access nor an allocation larger than the log itself is possible.
+	lengthByteOffsetBig := new(big.Int).SetBytes(readWord(log.Data, offsetStartByte))
+	if !lengthByteOffsetBig.IsUint64() || lengthByteOffsetBig.Uint64() > dataLength {
+		return nil
+	}
+	lengthByteOffset := lengthByteOffsetBig.Uint64()
+	lengthBig := new(big.Int).SetBytes(readWord(log.Data, lengthByteOffset))
+	if !lengthBig.IsUint64() || lengthBig.Uint64() > dataLength {
+		return nil
+	}
+	length := lengthBig.Uint64()
 	value := make([]byte, length)
 	startByte := lengthByteOffset + Word
 	endByte := startByte + length
 
-	if startByte < uint64(len(log.Data)) {
-		availableEnd := uint64(len(log.Data))
+	if startByte < dataLength {
+		availableEnd := dataLength
 		if endByte < availableEnd {
 			availableEnd = endByte
 		}
 		copy(value, log.Data[startByte:availableEnd])
 	}
 	return value
+}
+
+// readWord returns the 32 byte word of data starting at the given byte, zero-padded on the right
+// where data ends earlier.
+func readWord(data []byte, startByte uint64) []byte {
+	word := make([]byte, Word)
+	if startByte < uint64(len(data)) {
+		copy(word, data[startByte:])
+	}
+	return word
 }
 
 const (
